@@ -522,6 +522,26 @@ func c16RunSeq(seq *c16Seq) string {
 				return ""
 			}
 		}
+		if c.Kind == "IS" && c.ISRead != nil && err != nil && err.Error() != "handler says no" {
+			// the handler answered without draining the streamed body: the receiving
+			// side drops the connection, and the sender, still streaming, may find it
+			// closed under it (as a TCP sender would). An error is one of the two
+			// permitted outcomes; what the handler was handed is still judged.
+			e.mu.Lock()
+			n := len(e.received)
+			var cmd any
+			if n > i {
+				cmd = e.received[i]
+			}
+			e.mu.Unlock()
+			if n != i+1 {
+				return fmt.Sprintf("call %d (%s): handler received %d requests after %d calls (call error: %v)", i, c.Kind, n, i+1, err)
+			}
+			if d := cmpReq(cmd); d != "" {
+				return fmt.Sprintf("call %d (%s): request: %s", i, c.Kind, d)
+			}
+			continue
+		}
 		if d := c16Judge(e, i, err, c.HandlerErr, cmpReq, cmpResp); d != "" {
 			return fmt.Sprintf("call %d (%s): %s", i, c.Kind, d)
 		}
